@@ -5,7 +5,7 @@ COMPONENTS_COMMON = {
              "Go channels, WaitGroup, sync.Mutex, sync.Map, bufio", "Go race detector (fed only the program's own synchronisation)"],
     "simulated": ["goroutine scheduling (seeded serialising scheduler)", "select choice", "map and sync.Map iteration order",
                   "wall clock and timers (synctest fake clock)"],
-    "not_run": ["cmd/gedcom (flag parsing, log.Fatal, signal handler, progress bars)"],
+    "not_run": ["cmd/gedcom except where a property lists it under stub (C11, C14); its tune command and progress bars never"],
 }
 
 
@@ -40,7 +40,7 @@ PROPS = {
                        "sequential run when no scores tie, no race report, bounded liveness. Sampling, not proof."),
         "level_note": ("Trusts: the instrumenter (validated by running the upstream unit tests on the instrumented copy), the Go race detector, the library's own "
                        "similarity functions for recomputing scores on cold copies. GOMAXPROCS is irrelevant by construction (one goroutine runs at a time). "
-                       "cmd/gedcom/diff.go glue is not simulated."),
+                       "The gedcom diff command runs as real code (package main copied to a callable package, log.Fatal and os/signal stubbed); its progress bars are never switched on."),
         "rule": ("cases = seeded family-graph document pairs x Jobs x thresholds x notifier x scheduler configuration "
                  "(default / random preemption / PCT, select order, sync.Map order, clock advance); one evaluation = one "
                  "simulated execution of IndividualNodes.Compare (plus html.DiffPage in a quarter of the cases) inside the "
@@ -51,16 +51,16 @@ PROPS = {
             "quick": {"cases": 2400, "wall_s": 75, "seed": 1, "minimise_s": 40},
             "thorough": {"cases": 60000, "wall_s": 1500, "seed": 1001, "minimise_s": 120},
         },
-        "probes_wanted": ["jobs>1", "mutex_contended", "unique_id_tie", "score_tie_skipped", "o3_compared",
+        "probes_wanted": ["via=cli", "jobs>1", "mutex_contended", "unique_id_tie", "score_tie_skipped", "o3_compared",
                           "matched_by_unique_id", "matched_by_pointer", "matched_by_similarity"],
         "shrink_scalars": [_set(["compare", "diff_page"], False), _set(["compare", "notifier"], ""),
                            _set(["compare", "jobs"], 2), _set(["compare", "min_ws"], -1), _set(["compare", "prefer_ptr"], -1)],
-        "components": comp([]),
+        "components": comp(['cmd/gedcom (the command itself, in a third of the C14 cases and an eighth of the C11 cases): real code, copied into the scratch tree as package cmdsim and instrumented like the library; stubs: the log package (Fatal* panics with an exit value instead of ending the process), os/signal (no signal is delivered), os.Args / flag.CommandLine / os.Stdout set per run by the harness; files are real files in a temporary directory; the progress bar (-progress) is never switched on']),
         "assumptions": [
             "schedules, inputs and configurations are sampled by seed, not enumerated",
             "interleavings are explored at visible operations (channel, WaitGroup, mutex, sync.Map, goroutine start); conflicts between plain memory accesses are found by the race detector's happens-before analysis under the serialised schedule",
             "similarity scores used by the justification oracle are recomputed with the library's own SurroundingSimilarity on cold private copies",
-            "cmd/gedcom/diff.go glue is not simulated",
+            "through the command only race, crash, hang and a complete page are checked; the matching oracles O1-O3 need the result object and run on the library call",
         ],
     },
     "C19": {
@@ -131,7 +131,8 @@ PROPS = {
         "level_text": ("Seeded exploration: random family graphs perturbed by 0-4 of the structural faults the property lists, driven through the library pipelines of each command "
                        "(warnings, publish in every visibility and page-group subset with jobs 1/2/8, diff with every -show/-sort and jobs 1/4, the documented example queries with "
                        "every formatter) inside the scheduler. Outcome must be completed or error: a panic in any goroutine, a runtime fatal error and a hang are violations."),
-        "level_note": ("Partial claim: cmd/gedcom's flag parsing, log.Fatal, signal handler and progress bars are not simulated; process exit status is not observed. "
+        "level_note": ("A third of the cases run the code of the command itself (flag parsing, file reading, its own goroutines and the order in which it waits for them), with log.Fatal "
+                       "turned into an observable exit value; the rest drive the library calls the command makes. Signal delivery and the progress bars are not simulated. "
                        "Worker panics are visible because the instrumented go statement wraps every goroutine; fatal errors and CPU loops are caught by the driver's worker watchdog."),
         "rule": ("cases = seeded family graphs x structural faults x command x options x scheduler configuration; one evaluation = one simulated command. "
                  "distinct_nontrivial = distinct case hashes among cases with at least one structural fault applied."),
@@ -139,12 +140,12 @@ PROPS = {
             "quick": {"cases": 2400, "wall_s": 75, "seed": 1, "minimise_s": 40},
             "thorough": {"cases": 150000, "wall_s": 1500, "seed": 1001, "minimise_s": 120},
         },
-        "probes_wanted": ["command=warnings", "command=publish", "command=diff", "command=query", "visibility=hide", "visibility=show", "visibility=placeholder"],
+        "probes_wanted": ["command=warnings", "command=publish", "command=diff", "command=query", "visibility=hide", "visibility=show", "visibility=placeholder", "via=cli", "query=merge"],
         "shrink_scalars": [_set(["publish", "jobs"], 1), _set(["compare", "jobs"], 1)],
-        "components": comp(["file system: simulated disk implementing core.FileWriter", "q (query engine): real, instrumented for map order only (no concurrency inside)"]),
+        "components": comp(["file system: simulated disk implementing core.FileWriter (library-call cases; with the 255-byte file-name limit of real file systems); real temporary directory (command cases)", "q (query engine): real, instrumented for map order only (no concurrency inside)", 'cmd/gedcom (the command itself, in a third of the C14 cases and an eighth of the C11 cases): real code, copied into the scratch tree as package cmdsim and instrumented like the library; stubs: the log package (Fatal* panics with an exit value instead of ending the process), os/signal (no signal is delivered), os.Args / flag.CommandLine / os.Stdout set per run by the harness; files are real files in a temporary directory; the progress bar (-progress) is never switched on']),
         "assumptions": [
             "inputs and configurations are sampled by seed",
-            "only the library work behind each command is run; cmd/gedcom glue is not",
+            "exit status and stderr are observed as the exit value of the stubbed log.Fatal, not from a separate process",
         ],
     },
     "C01": {
